@@ -2796,7 +2796,9 @@ class Recipe:
 
         # a net change of zero comes out as rounding noise of either sign (of the stored decimals, and of the last digits of
         # a float when litres of a substance are involved)
-        if -(states * 10 ** -config.internal_precision + 1e-14 * magnitude) <= delta < 0:
+        # (every changed state also carries the last digit of a float of its own size, and in a one-to-many step the
+        # source is debited once per well, rounding the same way each time)
+        if -(states * 10 ** -config.internal_precision + 2.5e-16 * (states + 40) * magnitude) <= delta < 0:
             delta = 0
         if delta < 0:
             raise ValueError(
